@@ -455,7 +455,27 @@ def proto():
     emit_nat("dataFrameLimitChecked", 1 if re.search(r"partial_batch\.len\(\)\s*>=", b) else 0)
 
 
-GENERATORS = [("Consts", [wire], []), ("Proto", [proto], ["RzmqModel.Model.Names"])]
+def lifecycle():
+    tcp = "core/src/transport/tcp.rs"
+    b = strip_comments(src(tcp))
+    i = b.find("let mut current_retry_delay = initial_reconnect_ivl;")
+    if i < 0:
+        errors.append("tcp.rs: connecter retry-delay initialisation not found")
+        return
+    j = b.find("Fast-forward", i)
+    seg = b[i: i + 600]
+    emit_nat("connFirstDelayCapped", 1 if re.search(
+        r"filter\(\|d\| \*d > Duration::ZERO\)\s*\{\s*current_retry_delay = current_retry_delay\.min\(max_d\);", seg) else 0)
+    st = "core/src/socket/core/state.rs"
+    bb = fn_body(st, "on_connection_failure")
+    m = re.search(r"current_attempts\.min\((\d+)\)", bb)
+    emit_nat("backoffPowerCap", int(m.group(1)) if m else 0)
+    if not m:
+        errors.append("state.rs: back-off power cap not found")
+    emit_nat("DEFAULT_RECONNECT_IVL_MS", const("core/src/socket/options.rs", "DEFAULT_RECONNECT_IVL_MS"))
+
+
+GENERATORS = [("Consts", [wire], []), ("Proto", [proto], ["RzmqModel.Model.Names"]), ("Life", [lifecycle], [])]
 
 
 def main():
